@@ -1,14 +1,15 @@
 (* "I nvoc nchan ntrk m0 m1 ..." (muted channel indices) starts a table; then one op per line:
    R | V voc | C chn | L chn vol | N chn nna | P chn ins smp key nna dct dca | Q chn ins smp | T chn act
-   each prints  "ret used | chn root act vol ins smp key ; ... | map ... | count ... | inv"  or "OOB" (and the state is kept).
+   each prints  "ret used | chn root act vol ins smp key ; ... | map ... | count ... | inv mode ok"  or "OOB ok" (and the state is kept);
+   inv/mode: invb/modeb of the new state, ok: op_okb of the op in the state it was applied to (the premises of voices_inv_preserved).
    "D used | voices | map | count" evaluates invb on a dumped table (monitor mode): prints 1/0. *)
 open Voices_model
 open Zio
 let zi s = z_of_int (int_of_string s)
 let st = ref (virt_init Z0 Z0 Z0 [])
-let dump ret s =
+let dump ?(ok=true) ret s =
   let vs = String.concat " ; " (List.map (fun v -> Printf.sprintf "%s %s %s %s %s %s %s" (zs v.v_chn) (zs v.v_root) (zs v.v_act) (zs v.v_vol) (zs v.v_ins) (zs v.v_smp) (zs v.v_key)) s.voices) in
-  Printf.printf "%s %s | %s | %s | %s | %s\n" (zs ret) (zs s.used) vs (String.concat " " (List.map zs s.vmap)) (String.concat " " (List.map zs s.vcount)) (if invb s then "1" else "0")
+  Printf.printf "%s %s | %s | %s | %s | %s %s %s\n" (zs ret) (zs s.used) vs (String.concat " " (List.map zs s.vmap)) (String.concat " " (List.map zs s.vcount)) (if invb s then "1" else "0") (if modeb s then "1" else "0") (if ok then "1" else "0")
 let () = iter_lines (fun l ->
   match words l with
   | "I" :: nvoc :: nchan :: ntrk :: muted ->
@@ -32,12 +33,14 @@ let () = iter_lines (fun l ->
       else begin
         let i = List.nth idx ((int_of_string k) mod (List.length idx)) in
         Printf.printf "@V %d\n" i;
-        (match vstep !st (OResetVoice (z_of_int i)) with Some (r, s) -> st := s; dump r s | None -> print_endline "OOB")
+        let ok = op_okb !st (OResetVoice (z_of_int i)) in
+        (match vstep !st (OResetVoice (z_of_int i)) with Some (r, s) -> st := s; dump ~ok r s | None -> print_endline (if ok then "OOB 1" else "OOB 0"))
       end
   | op :: args ->
       let a = Array.of_list (List.map zi args) in
       let o = (match op with
         | "R" -> OReset | "V" -> OResetVoice a.(0) | "C" -> OResetChannel a.(0) | "L" -> OSetVol (a.(0), a.(1)) | "N" -> OSetNna (a.(0), a.(1))
         | "P" -> OSetPatch (a.(0), a.(1), a.(2), a.(3), a.(4), a.(5), a.(6)) | "Q" -> OQueuePatch (a.(0), a.(1), a.(2)) | _ -> OPastNote (a.(0), a.(1))) in
-      (match vstep !st o with Some (r, s) -> st := s; dump r s | None -> print_endline "OOB")
+      let ok = op_okb !st o in
+      (match vstep !st o with Some (r, s) -> st := s; dump ~ok r s | None -> print_endline (if ok then "OOB 1" else "OOB 0"))
   | _ -> ())
